@@ -77,6 +77,9 @@ void ProbeUtilities() {
   ThreadLocal<std::string, ThreadLocalTypeSlot<Slotted>> b{"x"};
   ThreadLocal<int, ThreadLocalIndexSlot<3>> c;
   ThreadLocal<int, ThreadLocalSlot<Slotted, 1>> d{4};
+  // a slot whose value type is itself an Optional: its first initialiser may be an empty Optional and must still win
+  ThreadLocal<Optional<int>, ThreadLocalSlot<Slotted, 2>> e{Optional<int>{}};
+  e.Initialize(Optional<int>{5}); (void)e.Get(); e.Clear();
   a.Initialize(2);
   (void)a.Get();
   a.Clear();
